@@ -108,6 +108,7 @@ type Exec struct {
 	accesses  []memAccess
 	raceInfo  string
 	lastNow   *Term
+	groups    map[*Cell]*errGroup
 	DepGlobals map[string]bool // dependency package variables read with a defaulted (zero/opaque) value
 }
 
@@ -814,6 +815,11 @@ func (e *Exec) unop(fr *Frame, x *ssa.UnOp) Value {
 	case token.XOR:
 		return BVNot(v.(*Term))
 	case token.ARROW:
+		// the only channel the repository receives from is a timer (time.After): the wait is
+		// an environment event, the received instant is irrelevant
+		if ov, ok := v.(OpaqueV); ok && ov.Kind == "timerchan" {
+			return e.zero(x.Type())
+		}
 		panic(abortf("UNSUPPORTED channel receive"))
 	}
 	panic(abortf("UNSUPPORTED unop %v on %T", x.Op, v))
